@@ -362,6 +362,16 @@ impl Check for C06 {
                     ("statement after continue", "    loop v < 3 do\n        v += 1\n        continue\n        v = 9\n    end\n", None),
                     ("statement after <!>", "    if v > 5 do\n        <!>\n        v = 2\n    end\n", None),
                     ("two rets", "    h :: fn -> int do\n        ret 1\n        ret 2\n    end\n    print(h())\n", Some("statement_after_ret_in_same_block")),
+                    // a loop whose ONLY `continue` / `break` sits in one particular kind of nested block
+                    ("only continue of a loop in a case arm", "    loop v < 3 do\n        v += 1\n        case e do\n            A q ->\n                continue\n            end\n            B ->\n            end\n        end\n        print(v)\n    end\n", None),
+                    ("only continue of a loop in a case else", "    loop v < 3 do\n        v += 1\n        case e do\n            B ->\n            end\n            else\n                continue\n            end\n        end\n        print(v)\n    end\n", None),
+                    ("only continue of a loop in an elif arm", "    loop v < 3 do\n        v += 1\n        if v > 5 do\n            print(v)\n        elif t do\n            continue\n        end\n        print(v)\n    end\n", None),
+                    ("only continue of a loop in an else arm", "    loop v < 3 do\n        v += 1\n        if v > 5 do\n            print(v)\n        else do\n            continue\n        end\n    end\n", None),
+                    ("only continue of a loop in a block", "    loop v < 3 do\n        v += 1\n        do\n            continue\n        end\n    end\n", None),
+                    ("only continue of a loop in an if inside a case arm", "    loop v < 3 do\n        v += 1\n        case e do\n            A q ->\n                if q > 0 do\n                    continue\n                end\n            end\n            else\n            end\n        end\n        print(v)\n    end\n", None),
+                    ("only break of a loop in a case arm", "    loop do\n        v += 1\n        case e do\n            A q ->\n                break\n            end\n            B ->\n            end\n        end\n    end\n", None),
+                    ("only break of a loop in a case else inside an if", "    loop do\n        v += 1\n        if t do\n            case e do\n                B ->\n                end\n                else\n                    break\n                end\n            end\n        end\n    end\n", None),
+                    ("continue of the outer loop only after an inner loop", "    loop v < 3 do\n        v += 1\n        w := 0\n        loop w < 2 do\n            w += 1\n        end\n        case e do\n            A q ->\n                continue\n            end\n            else\n            end\n        end\n    end\n", None),
                     // jumps that would leave a function literal (the compiler must reject them; if it ever
                     // accepts one the emitted `break` / `goto` cannot load)
                     ("break in a pu closure inside a loop", "    loop v < 3 do\n        v += 1\n        g :: pu n: int -> int do\n            break\n            n\n        end\n    end\n", None),
